@@ -10,6 +10,7 @@ import asyncio
 import itertools
 
 from hv import boot  # noqa: F401
+from hv import vtime
 from hv.core import Result, viol
 from hv.vloop import Livelock
 from hv.world import Chooser, World
@@ -128,7 +129,130 @@ def _heir(tier: str):
                     }
 
 
+def _wide_programs(tier: str):
+    """WIDE scopes: 4..9 (12) children under one root, one or two of them in plain / spawned tasks
+    that may outlive their siblings; and children whose scope objects are created in one order and
+    entered in another.  The root's merged view folds them in CREATION order."""
+    for k in (4, 5, 6, 9) if tier == "quick" else (4, 5, 6, 7, 9, 12):
+        for pos in sorted({0, 1, k // 2, k - 1}):
+            for how in ("create", "spawn"):
+                yield {"wide": k, "tasks": [pos], "how": how}
+        if k <= 6:
+            for pair in ((0, 1), (0, k - 1), (1, k - 2)):
+                yield {"wide": k, "tasks": list(pair), "how": "create"}
+    for perm in itertools.permutations(range(3)):
+        yield {"wide": 3, "tasks": [], "how": "create", "prepared": list(perm)}
+    for k in (4, 5, 7):
+        for perm in (list(reversed(range(k))), [*range(1, k), 0], [k - 1, *range(k - 1)], [*range(0, k, 2), *range(1, k, 2)]):
+            yield {"wide": k, "tasks": [], "how": "create", "prepared": perm}
+            yield {"wide": k, "tasks": [perm[0]], "how": "create", "prepared": perm}
+
+
+def _wide(program, ch: Chooser) -> Result:  # noqa: C901, PLR0915
+    w = World(ch)
+    viols: list[dict] = []
+    k, tasked, how, prepared = program["wide"], set(program["tasks"]), program["how"], program.get("prepared")
+    events: list = []
+    created: dict[str, int] = {}
+    cbs: dict[str, dict] = {}
+    letters = "abcdefghijklmnop"
+    raised: list = []
+
+    def make_cb(name: str, is_root: bool):
+        def cb(metrics):
+            e = cbs.setdefault(name, {"count": 0})
+            e["count"] += 1
+            e["seq"] = len(events)
+            events.append(("completed", name))
+            m = metrics.read(M1)
+            e["own"] = None if m is None else (m.n, m.trail)
+            if is_root:
+                e["view"] = [(x.n, x.trail) for x in metrics.metrics(merge=view_concat) if hasattr(x, "trail")]
+
+        return cb
+
+    def rec(letter: str) -> None:
+        try:
+            ctx.record(M1(n=1, trail=letter), merge=concat)
+        except BaseException as exc:  # noqa: BLE001
+            raised.append(f"{type(exc).__name__}: {exc}"[:100])
+
+    def create(i: int):
+        name = f"c{i}"
+        vtime.advance(0.125)  # time passes between any two steps (measured times / stamps differ)
+        created[name] = len(events)
+        events.append(("created", name))
+        return ctx.scope(name, completion=make_cb(name, False))
+
+    async def child(i: int, cm=None) -> None:
+        name = f"c{i}"
+        if cm is None:
+            await w.pause(f"{name}.enter")
+            cm = create(i)
+        else:
+            await w.pause(f"{name}.enter")
+        vtime.advance(0.125)
+        async with cm:
+            rec(letters[i])
+            if i % 3 == 0:
+                rec(letters[i].upper())
+            await w.pause(f"{name}.exit")
+
+    async def root() -> None:
+        async with ctx.scope("root", completion=make_cb("root", True)):
+            rec("r")
+            cms = [create(i) for i in range(k)] if prepared else None
+            order = prepared if prepared else list(range(k))
+            for i in order:
+                cm = cms[i] if cms else None
+                if i in tasked:
+                    if how == "spawn":
+                        ctx.spawn(child, i, cm)
+                    else:
+                        w.loop.create_task(child(i, cm))
+                else:
+                    await child(i, cm)
+            await w.pause("root.exit")
+
+    try:
+        t = w.task(root(), name="root-task")
+        hang = False
+        try:
+            w.run()
+        except Livelock:
+            hang = True
+        if hang or not t.done():
+            viols.append(viol("termination", "hang", "all tasks finish", w.trace[-5:]))
+        elif not t.cancelled() and t.exception() is not None:
+            viols.append(viol("never-raises", "task-failed", "no exception", repr(t.exception())[:160]))
+        if raised:
+            viols.append(viol("never-raises", "record-raises/wide", "ctx.record never raises", raised[:2]))
+        for i in range(k):
+            name = f"c{i}"
+            want = (2, letters[i] + letters[i].upper()) if i % 3 == 0 else (1, letters[i])
+            got = cbs.get(name, {})
+            if got.get("count", 0) != 1:
+                viols.append(viol("completion", "callback-count", 1, got.get("count", 0), scope=name))
+            elif got.get("own") != want:
+                viols.append(viol("left-fold" if got.get("own") else "lands-in-innermost", f"wide/{'fold' if got.get('own') else 'lost'}/M1", {name: want}, {name: got.get("own")}))
+        r = cbs.get("root", {})
+        if r.get("count", 0) != 1:
+            viols.append(viol("completion", "callback-count", 1, r.get("count", 0), scope="root"))
+        else:
+            inview = sorted((n for n in created if created[n] < r["seq"]), key=lambda n: created[n])
+            trail = "r" + "".join((letters[int(n[1:])] + letters[int(n[1:])].upper()) if int(n[1:]) % 3 == 0 else letters[int(n[1:])] for n in inview)
+            want_view = [(len(trail), trail)]
+            if r.get("view") != want_view:
+                viols.append(viol("merged-view", "wide/creation-order", want_view, r.get("view"), created=sorted(created, key=created.get), entered=program.get("prepared")))
+        order_created = sorted(created, key=created.get)
+        shuffled = order_created != [f"c{i}" for i in range(k)] or bool(prepared)
+        return Result(f"wide/k={k}/tasks={len(tasked)}/prepared={bool(prepared)}/shuffled={shuffled}", bool(tasked) or bool(prepared), viols[:4], {"trace": w.trace, "created": order_created})
+    finally:
+        w.close()
+
+
 def programs(tier: str):
+    yield from _wide_programs(tier)
     yield from _heir(tier)
     yield from _chain_plus_sibling(tier)
     for p in _base_programs(tier):
@@ -200,6 +324,8 @@ def explore_config(tier: str, program) -> dict:
 
 
 def execute(program, ch: Chooser) -> Result:  # noqa: C901, PLR0915
+    if "wide" in program:
+        return _wide(program, ch)
     w = World(ch)
     viols: list[dict] = []
     events: list = []
